@@ -14,7 +14,7 @@ HEADLINE = ['pairs', 'instants', 'overrun_prone_pairs', 'fresh_runs', 'continued
 
 
 def floors(tier):
-    return {'pairs': 1000, 'overrun_prone_pairs': 200, 'continued_runs': 200, 'stopped_runs': 50, 'unit_change_continuations': 60, 'reset_reruns': 100,
+    return {'pairs': 1000, 'overrun_prone_pairs': 200, 'continued_runs': 200, 'stopped_runs': 50, 'unit_change_continuations': 60, 'reset_reruns': 100, 'durations_converted_in_place': 200,
             'set:dt_T_units': 16, 'set:nontrivial': 300}
 
 
@@ -120,6 +120,14 @@ def make_case(rng, i):
         info['kind'] = 'stopped'
         # stop when the gear has turned far enough: somewhere inside the run
         spec['stop'] = {'sensor': 'enc', 'elem': 1, 'op': 'ge', 'thr': GEN.Q('AngularPosition', 0.5 * (0.8 * w0 * 0.05) * (rng.uniform(0.2, 0.9) * n * dt_si) ** 2 / dt_si, 'rad')}
+    if i % 4 == 3:
+        # the duration (and sometimes the step) handed to run() went through an in-place conversion first
+        for op_ in sched:
+            if op_['op'] == 'run':
+                op_['T_via'] = rng.choice([u for u in SI.units('TimeInterval') if u != op_['T']['u']])
+                if rng.random() < 0.5:
+                    op_['dt_via'] = rng.choice([u for u in SI.units('TimeInterval') if u != op_['dt']['u']])
+        info['converted_in_place'] = True
     spec['schedule'] = sched
     return spec, info
 
@@ -186,6 +194,8 @@ def one(ctx, i):
     ctx.seen('dt_T_units', d0['dt']['u'] + '|' + d0['T']['u'])
     if overrun_prone(info['m'], info['e'], info['n']) and d0['dt']['u'] == d0['T']['u'] and info['form'] == 'literal':
         ctx.count('overrun_prone_pairs')
+    if info.get('converted_in_place'):
+        ctx.count('durations_converted_in_place')
     if info.get('unit_change'):
         ctx.count('unit_change_continuations')
     if info['kind'] == 'reset-rerun':
